@@ -1,7 +1,8 @@
 #!/bin/bash
-# collect the output of a mutation sub-agent and drop its scratch worktree
-id=$1
-mkdir -p /verif/seeded/_incoming/$id
-cp -r /tmp/wt-$id/out/. /verif/seeded/_incoming/$id/ 2>/dev/null
-git -C /repo worktree remove --force /tmp/wt-$id && echo "removed /tmp/wt-$id"
-ls /verif/seeded/_incoming/$id
+# collect the output of a mutation sub-agent and drop its scratch worktree: collect_mut.sh <Cxx> [round]
+id=$1; rnd=$2
+mkdir -p /verif/seeded/_incoming$rnd/$id
+cp -r /tmp/wt$rnd-$id/out/. /verif/seeded/_incoming$rnd/$id/ 2>/dev/null
+git -C /repo worktree remove --force /tmp/wt$rnd-$id && echo "removed /tmp/wt$rnd-$id"
+rm -rf /tmp/wt$rnd-$id
+ls /verif/seeded/_incoming$rnd/$id
